@@ -5,6 +5,7 @@ package main
 import (
 	"fmt"
 	"go/types"
+	"math/big"
 	"net/netip"
 	"regexp"
 	"strconv"
@@ -125,7 +126,16 @@ func vfIntrinsic(fn *ssa.Function, base string) extFn {
 			if s, ok := in.concreteInput(name); ok {
 				return s
 			}
-			return &Sym{T: in.newInput(name, kind, sortStr)}
+			v := in.newInput(name, kind, sortStr)
+			if base == "vfStrK" {
+				if b, ok := strKindBase[kind[4:]]; ok {
+					lo := in.ts.mk("const", sortStr, nil, "", big.NewInt(b))
+					hi := in.ts.mk("const", sortStr, nil, "", big.NewInt(b+1<<24))
+					in.assumeTerm(in.ts.mk("<=", sortBool, []*Term{lo, v}, "", nil))
+					in.assumeTerm(in.ts.mk("<", sortBool, []*Term{v, hi}, "", nil))
+				}
+			}
+			return &Sym{T: v}
 		}
 	case "vfAssume":
 		return func(fr *frame, a []value) value {
